@@ -358,6 +358,20 @@ theorem routing_table_min_cost (s : State) (now : Nat) (hp : Lemmas.PastLosses n
     Lemmas.libTable_correct _ hw (fun e he => (hwf e he).2) hcost⟩
   exact List.length_pos_iff.mpr hix
 
+/-- **The node numbering handed to the Dijkstra library is a bijection**: the index stays
+duplicate-free with the own node first under every operation that extends it, `nodeIndex` and
+`indexNode` are inverse to each other, and the own node is vertex 0. -/
+theorem node_index_bijective (self : Nat) (s : State) (h : Lemmas.IndexOk self s) :
+    (∀ d, Lemmas.IndexOk self (s.notify d)) ∧ (∀ p, Lemmas.IndexOk self (s.peerAppeared p)) ∧
+    (∀ now p, Lemmas.IndexOk self (s.peerDisappeared now p)) ∧
+    (∀ i, i < s.indexNode.length → idxOf s.indexNode (s.indexNode.getD i 0) = i) ∧
+    (∀ id ∈ s.indexNode, s.indexNode.getD (idxOf s.indexNode id) 0 = id) ∧
+    idxOf s.indexNode self = 0 :=
+  ⟨Lemmas.indexOk_notify h, Lemmas.indexOk_peerAppeared h, Lemmas.indexOk_peerDisappeared h,
+   fun _ hi => Lemmas.idxOf_getD h.1 hi, fun _ hid => Lemmas.getD_idxOf hid, Lemmas.idxOf_self h⟩
+
+example : Lemmas.IndexOk 0 (State.init 0) := Lemmas.indexOk_init 0
+
 /-- The table is rebuilt from scratch: the old table has no influence. -/
 theorem recompute_ignores_old_table (s : State) (t : Table) (now : Nat) :
     ({ s with table := t }.computeLib now).table = (s.computeLib now).table := rfl
